@@ -46,6 +46,8 @@ fn seal_keys(
         .as_ref()
         .split_last_chunk::<16>()
         .ok_or(PasetoError::CryptoError)?;
+    #[cfg(paseto_verif)]
+    let n = &paseto_core::verif::counter_override(*n);
 
     let mut ak = digest::Context::new(&SHA384);
     ak.update(b"\x02k3.seal.");
